@@ -253,6 +253,23 @@ def valid (p : Pos) : Bool :=
       | _, _ => false)) &&
   0 ≤ p.halfmove && p.halfmove ≤ 100 && 1 ≤ p.fullmove
 
+/-- "en-passant target only directly behind a pawn that COULD JUST HAVE double-pushed": the position
+    before that double push (the pawn back on its origin square, the two squares in front of it vacant)
+    must itself have been playable, i.e. the side that was not to move then — the side to move now —
+    was not in check in it.  (`valid` checks the geometry of the target; this checks that the push
+    was possible.  Example excluded: `8/8/5N1k/8/3pP3/8/8/2B1K1R1 b - e3 0 1`, where the bishop on c1
+    would already have attacked h6 through e3 before e2-e4.) -/
+def epSound (p : Pos) : Bool :=
+  match p.ep with
+  | none => true
+  | some t =>
+    let mover := p.turn.flip
+    match square? (file t) (rank t + up mover), square? (file t) (rank t - up mover) with
+    | some front, some back =>
+      let men := setMan (setMan p.men front none) back (some (mover, .pawn))
+      !(inCheck { p with men := men, ep := none } p.turn)
+    | _, _ => false
+
 /-- the engine's normal form of the en-passant state: recorded only when a capture is legal. -/
 def epNormal (p : Pos) : Bool := p.ep.isNone || !(legalEpCaptures p).isEmpty
 
